@@ -218,11 +218,31 @@ pub fn run_scaled(ctx: Ctx, rep: &mut Report, tiny: bool) {
     for &len in if tiny { &[65536usize][..] } else { &[65536usize, 65537, 70000, 131071, 131072, 65535 + 7][..] } {
         for cmd in [Command::Push, Command::Settings, Command::Waste] {
             let data = rng.bytes(len);
-            let mut out = BytesMut::new();
+            // the destination already holds a frame; a refused frame must leave nothing behind, so that what is encoded
+            // next still follows the earlier frame directly
+            let before = refcodec::encode(refcodec::PSH, 9, b"earlier frame");
+            let mut out = BytesMut::from(&before[..]);
             let mut codec = FrameCodec;
             rep.case(Some(hash_str(&format!("oversize:{}:{}", u8::from(cmd), len))));
             rep.add("oversize_attempts", 1);
-            if let Ok(()) = codec.encode(Frame::with_data(cmd, 7, Bytes::from(data.clone())), &mut out) {
+            let r = codec.encode(Frame::with_data(cmd, 7, Bytes::from(data.clone())), &mut out);
+            if r.is_err() {
+                let after_refusal = out.len();
+                let _ = codec.encode(Frame::with_data(Command::Push, 11, Bytes::from_static(b"later frame")), &mut out);
+                let mut want = before.clone();
+                want.extend_from_slice(&refcodec::encode(refcodec::PSH, 11, b"later frame"));
+                if out[..] != want[..] {
+                    rep.violate(
+                        "codec",
+                        "oversize_payload",
+                        "refused_frame_left_bytes_in_the_buffer",
+                        format!("encode of a {len}-byte payload returned Err but the destination buffer grew from {} to {after_refusal} bytes; a frame encoded afterwards no longer follows the earlier one (stray bytes {:02x?})", before.len(), &out[before.len()..after_refusal.min(before.len() + 12)]),
+                        json!({"cmd": u8::from(cmd), "len": len}),
+                    );
+                }
+            }
+            let out = BytesMut::from(&out[before.len().min(out.len())..]);
+            if let Ok(()) = r {
                 // accepted: the emitted bytes must parse into frames whose payloads concatenate to the input
                 let (frames, consumed) = refcodec::parse_all(&out);
                 let joined: Vec<u8> = frames.iter().flat_map(|f| f.data.clone()).collect();
@@ -420,7 +440,7 @@ pub fn run_scaled(ctx: Ctx, rep: &mut Report, tiny: bool) {
 pub fn meta() -> CheckMeta {
     CheckMeta {
         level: "exploration",
-        rule: "differential run of FrameCodec against an independent slice-based reference codec: (a) header-only grid of command bytes x length values, (b) encode/decode round trips over 11 commands x boundary ids x boundary lengths, (b2) oversize payload attempts, (b3) several frames encoded one after the other into one buffer (optionally pre-filled) compared with the reference concatenation and decoded back, (c) frame concatenations fed cut at every single position / every pair (short streams) / random multi-cuts / 1-byte drip / around every header, comparing frames, consumed count and exact leftover after every feed, (d) arbitrary and header-shaped byte strings. A case is non-trivial+distinct by its (kind, parameters or leading bytes) hash when at least one frame completes (d) or always (a-c). In a session: a real server Session is fed Settings, SYN, 2-5 PSH frames (payload sizes around 8 KiB, 16 KiB and 64 KiB) and FIN in pieces, each piece one transport read, with a cut 0-7 bytes after every frame boundary (a read that ends inside the next header), alone or with a second cut elsewhere; the stream's consumer must obtain exactly the payload bytes of the frames sent, then end of stream.".into(),
+        rule: "differential run of FrameCodec against an independent slice-based reference codec: (a) header-only grid of command bytes x length values, (b) encode/decode round trips over 11 commands x boundary ids x boundary lengths, (b2) oversize payload attempts into a buffer that already holds a frame (Err must leave the buffer as it was; Ok must be self-consistent), (b3) several frames encoded one after the other into one buffer (optionally pre-filled) compared with the reference concatenation and decoded back, (c) frame concatenations fed cut at every single position / every pair (short streams) / random multi-cuts / 1-byte drip / around every header, comparing frames, consumed count and exact leftover after every feed, (d) arbitrary and header-shaped byte strings. A case is non-trivial+distinct by its (kind, parameters or leading bytes) hash when at least one frame completes (d) or always (a-c). In a session: a real server Session is fed Settings, SYN, 2-5 PSH frames (payload sizes around 8 KiB, 16 KiB and 64 KiB) and FIN in pieces, each piece one transport read, with a cut 0-7 bytes after every frame boundary (a read that ends inside the next header), alone or with a second cut elsewhere; the stream's consumer must obtain exactly the payload bytes of the frames sent, then end of stream.".into(),
         assumptions: vec!["the 40-line reference codec encodes the protocol description correctly".into(), "ids beyond the boundary set and payload contents are sampled, not enumerated".into()],
         floors: vec![("header_only_decodes", 30_000), ("roundtrips", 1000), ("frames_encoded_into_shared_buffers", 1000), ("fragmentations_checked", 3000), ("frames_decoded_from_arbitrary_strings", 1000), ("in_session_fragmentations", 500)],
         exhaustive: false,
